@@ -21,6 +21,7 @@ import (
 	"strconv"
 	"strings"
 	"sync"
+	"syscall"
 	"time"
 )
 
@@ -402,6 +403,7 @@ func (c *Ctx) TLC(o TLCOpt) (*TLCResult, error) {
 	ctx, cancel := context.WithTimeout(context.Background(), o.Timeout)
 	defer cancel()
 	cmd := exec.CommandContext(ctx, "java", args...)
+	cmd.SysProcAttr = &syscall.SysProcAttr{Pdeathsig: syscall.SIGKILL} // no orphaned JVM if the harness is killed
 	cmd.Dir = dir
 	var out bytes.Buffer
 	cmd.Stdout = &out
